@@ -141,7 +141,11 @@ Section Force.
   | KDipoleMagnitude
   | KDipoleAngle (pbc : bool)
   | KPolarTheta
-  | KPolarPhi.
+  | KPolarPhi
+  (* rmsd with its default fit (centerToReference + rotateToReference on its own atoms, fit gradients disabled):
+     reference positions, and the optimal-rotation solver (rotation::calc_optimal_rotation) as a function from the
+     list of (centred position, centred reference position) pairs to a quaternion *)
+  | KRmsd (ref : list V3) (qopt : list (V3 * V3) -> @quat T).
 
   Variable pi : T.
   Definition rad2deg : T := ofnat 180 / pi.
@@ -359,6 +363,32 @@ Section Force.
     (rad2deg * ph,
      [wgrad g (rad2deg * nneg O (nsin O ph) / (r * nsin O th), rad2deg * ncos O ph / (r * nsin O th), zero)]).
 
+  (* quaternion::rotation_matrix applied to a vector, and the conjugate (= inverse rotation for unit quaternions) *)
+  Definition qrot (q : @quat T) (v : V3) : V3 :=
+    let '(q0, q1, q2, q3) := q in let '(x, y, z) := v in
+    ((q0 * q0 + q1 * q1 - q2 * q2 - q3 * q3) * x + tw * (q1 * q2 - q0 * q3) * y + tw * (q0 * q2 + q1 * q3) * z,
+     tw * (q0 * q3 + q1 * q2) * x + (q0 * q0 - q1 * q1 + q2 * q2 - q3 * q3) * y + tw * (q2 * q3 - q0 * q1) * z,
+     tw * (q1 * q3 - q0 * q2) * x + tw * (q0 * q1 + q2 * q3) * y + (q0 * q0 - q1 * q1 - q2 * q2 + q3 * q3) * z).
+  Definition qconj (q : @quat T) : @quat T := let '(q0, q1, q2, q3) := q in (q0, nneg O q1, nneg O q2, nneg O q3).
+  (* positions minus their centre of geometry *)
+  Definition centred (l : list V3) : list V3 :=
+    let c := vdiv (vsum l) (ofnat (length l)) in map (fun p => v3sub O p c) l.
+  (* deviations R(q) y_i - r_i *)
+  Definition rdev (q : @quat T) (prs : list (V3 * V3)) : list V3 := map (fun yr => v3sub O (qrot q (fst yr)) (snd yr)) prs.
+
+  (* rmsd::calc_value / calc_gradients on the group fitted by calc_apply_roto_translation, and apply_colvar_force's
+     rotation back to the laboratory frame (rot.inverse()); the centre term of the fit vanishes and the rotation
+     term is not computed ("derivatives of the optimal rotation ... cancel out in the gradients") *)
+  Definition k_rmsd (ref : list V3) (qopt : list (V3 * V3) -> @quat T) (gs : list gdata) : T * list (list V3) :=
+    let l := gd_pos (gnth gs 0) in
+    let n := ofnat (length l) in
+    let prs := combine (centred l) (centred ref) in
+    let q := qopt prs in
+    let dev := rdev q prs in
+    let x := nsqrt O (tsum (map (v3norm2 O) dev) / n) in
+    let c := (if nltb O zero x then hf / (x * n) else zero) * tw in
+    (x, [map (fun d => qrot (qconj q) (v3scale O c d)) dev]).
+
   Definition keval (cell : option V3) (k : ckind) (gs : list gdata) : T * list (list V3) :=
     match k with
     | KDistance pbc => k_distance pbc cell gs
@@ -378,6 +408,7 @@ Section Force.
     | KDipoleAngle pbc => k_dipole_angle pbc cell gs
     | KPolarTheta => k_polar_theta gs
     | KPolarPhi => k_polar_phi gs
+    | KRmsd ref qopt => k_rmsd ref qopt gs
     end.
 
   (* ---- a component inside a variable ---- *)
@@ -437,7 +468,11 @@ Section Force.
      each hill = weight and, per variable of the bias, (variable index, (centre, sigma)) *)
   | BMeta (hs : list (T * list (nat * (T * T))))
   (* ABMD at a fixed reference (colvarbias_abmd::update): force constant, decreasing flag, variable, reference *)
-  | BAbmd (k : T) (dec : bool) (v : nat) (ref : T).
+  | BAbmd (k : T) (dec : bool) (v : nat) (ref : T)
+  (* histogramRestraint (colvarbias_restraint_histogram::update) on scalar variables / the elements of a vector variable:
+     force constant, the normalisation 1/(sqrt(2 pi) sigma n) (computed by the caller), gaussian width, the grid as
+     (bin centre, reference histogram value) pairs, and the element variables *)
+  | BHist (k norm sigma : T) (grid : list (T * T)) (vs : list nat).
 
   Definition rvar (v : cvar) : var := mkVar (cv_width v) (cv_periodic v) (cv_period v) zero.
   Definition cvar0 : cvar := mkCvar one false zero [].
@@ -452,8 +487,17 @@ Section Force.
     if nltb O (ofnat 23) s then zero else nexp O (nneg O hf * s).
   Definition abmd_diff (dec : bool) (x ref : T) : T := (x - ref) * (if dec then mone else one).
 
+  (* one Gaussian of the histogram: norm * exp(-(xg - x)^2 / (2 sigma^2)) *)
+  Definition hist_gauss (norm sigma xg x : T) : T :=
+    norm * nexp O (mone * (xg - x) * (xg - x) / (tw * sigma * sigma)).
+  Definition hist_p (norm sigma : T) (xs : list T) (vs : list nat) (xg : T) : T :=
+    tsum (map (fun v => hist_gauss norm sigma xg (xat xs v)) vs).
+
   Definition bias_energy (b : bias) (ws : list cvar) (xs : list T) : T :=
     match b with
+    | BHist k norm sigma grid vs =>
+      hf * (k * ofnat (length vs)) *
+      tsum (map (fun gr => (hist_p norm sigma xs vs (fst gr) - snd gr) * (hist_p norm sigma xs vs (fst gr) - snd gr)) grid)
     | BMeta hs => tsum (map (fun h => fst h * hill_value ws xs (snd h)) hs)
     | BAbmd k dec v ref =>
       let diff := abmd_diff dec (xat xs v) ref in
@@ -466,6 +510,12 @@ Section Force.
   (* colvar_forces[i] of the bias, summed on variable v (colvarbias::communicate_forces, time_step_factor 1) *)
   Definition bias_force (b : bias) (ws : list cvar) (xs : list T) (v : nat) : T :=
     match b with
+    | BHist k norm sigma grid vs =>
+      tsum (map (fun i => if Nat.eqb i v then
+                  tsum (map (fun gr => (k * ofnat (length vs)) * (hist_p norm sigma xs vs (fst gr) - snd gr)
+                                       * hist_gauss norm sigma (fst gr) (xat xs v)
+                                       * (mone * (fst gr - xat xs v) / (sigma * sigma))) grid)
+                else zero) vs)
     | BMeta hs =>
       tsum (map (fun h =>
                    let val := hill_value ws xs (snd h) in
